@@ -11,10 +11,10 @@ from . import tlc
 from .par import pmap
 from . import session
 
-CLAUSES = {"C04": ["D1", "D2", "D3", "D4", "DH"], "C05": ["N1", "N2", "N3", "N4", "N5"],
+CLAUSES = {"C04": ["D1", "D2", "D3", "D4", "D5", "DH"], "C05": ["N1", "N2", "N3", "N4", "N5"],
            "C11": ["G1", "G2", "G3", "G4", "G5"], "C06": ["R1", "R2", "R3", "R4", "R5", "R6"]}
 KF = {"KF_StoredInLag": "FALSE", "KF_WriteBeforeJournal": "FALSE"}
-ALLPROPS = "D1 D2 D3 D4 N1 N2 N3 N4 N5 G1 G2 G3 G4 G5 R".split()
+ALLPROPS = "D1 D2 D3 D4 D5 N1 N2 N3 N4 N5 G1 G2 G3 G4 G5 R".split()
 
 
 def eval_cfg():
